@@ -152,14 +152,19 @@ def gen_cases(rng, tier):
             f = mk(j, 0, 0, seqid=rng.choice(["chr1", "chr1", "chr2"]), strand=rng.choice(["+", "+", "-"]),
                    type_=rng.choice(["exon", "exon", "CDS"]), source=rng.choice(["src", "s2"]), frame=rng.choice([".", "0"]))
             s0 = rng.randrange(1, 40)
-            while (f["seqid"], f["type"], f["strand"], s0) in seen:
+            while (f["seqid"], s0) in seen:
                 s0 += 1
-            seen.add((f["seqid"], f["type"], f["strand"], s0))
+            seen.add((f["seqid"], s0))
             f["s"], f["e"] = s0, s0 + rng.randrange(0, 12)
             if rng.random() < 0.3:
                 f["parent"] = "f%d" % rng.randrange(0, 8)
             feats.append(f)
-        cases.append({"k": "all", "exclude": i % 2 == 0, "feats": feats, "crit": [], "twice": rng.random() < 0.2})
+        # merge_order / merge_criteria variants: the default, and orders under which runs may span types or strands
+        variant = [(["seqid", "featuretype", "strand", "start"], ["seqid", "ov_end", "strand", "ftype"]),
+                   (["seqid", "strand", "start"], ["seqid", "ov_end", "strand"]),
+                   (["seqid", "featuretype", "start"], ["seqid", "ov_end", "ftype"]),
+                   (["seqid", "start"], ["seqid", "ov_end"])][i % 4 if i % 3 else 0]
+        cases.append({"k": "all", "exclude": i % 2 == 0, "feats": feats, "crit": variant[1], "order": variant[0], "twice": rng.random() < 0.2})
     return cases
 
 
@@ -275,7 +280,10 @@ def run_impl(c):
         before = imp.dump_tables(db.conn)
         mem = sorted([k, v] for k, v in db._autoincrements.items())
         try:
-            db.merge_all(exclude_components=c["exclude"])
+            kwa = {}
+            if c.get("order"):
+                kwa = {"merge_order": tuple(c["order"]), "merge_criteria": py_criteria(c["crit"])}
+            db.merge_all(exclude_components=c["exclude"], **kwa)
             if c.get("twice"):
                 pass
             after = ["ok", imp.dump_tables(db.conn)]
@@ -319,7 +327,10 @@ def coq_case(c, o):
                                                 L.b(o.get("alone_ok", False)))
     if c["k"] == "all":
         mem = L.lst(["(%s, %s)" % (L.s(k), L.z(v)) for k, v in o["mem"]], "(str * Z)")
-        return "CMergeAll %s %s %s %s" % (L.b(c["exclude"]), imp.coq_tables(o["before"]), mem, imp.res_tables(o["after"]))
+        okeys = {"seqid": "KSeqid", "featuretype": "KFtype", "strand": "KStrand", "start": "KStart"}
+        order = L.lst([okeys[k] for k in (c.get("order") or ["seqid", "featuretype", "strand", "start"])], "okey")
+        crit = coq_criteria(c["crit"] if c.get("order") else ["seqid", "ov_end", "strand", "ftype"])
+        return "CMergeAll %s %s %s %s %s %s" % (L.b(c["exclude"]), order, crit, imp.coq_tables(o["before"]), mem, imp.res_tables(o["after"]))
     return "CBp %s %s %s %s" % (coq_criteria(c["crit"]), ins, L.res(o["plain"], L.z), L.res(o["merged"], L.z))
 
 
